@@ -244,6 +244,100 @@ theorem cubic_tOfPoint_range (dist : K → K) (samples : List K) (hne : samples 
 /-- the pinned loop measured the right-hand candidate at `lower` (F21): with it the upper candidate is never an improvement
     over the lower one, so refinement only ever moves left — a concrete run where the repaired loop moves right -/
 example : (refine (fun t : ℚ => |t - 3 / 4|) (1 / 100) (1 / 2, some (1 / 4))).1 = 51 / 100 := by decide +kernel
+
+/-! #### since F23: the regular samples merged with a uniform grid -/
+
+theorem mem_mergeGrid (regular : List K) (t : K) : t ∈ mergeGrid regular ↔ t ∈ regular ∨ t ∈ (grid : List K) := by
+  unfold mergeGrid
+  rw [List.mem_dedup, List.mem_mergeSort, List.mem_append]
+
+theorem grid_range : ∀ t ∈ (grid : List K), 0 ≤ t ∧ t ≤ 1 := by
+  intro t ht
+  simp only [grid, List.mem_map, List.mem_range] at ht
+  obtain ⟨i, hi, rfl⟩ := ht
+  constructor
+  · positivity
+  · rw [div_le_one (by norm_num)]
+    have : (i : K) ≤ 64 := by exact_mod_cast Nat.le_of_lt_succ hi
+    exact this
+
+theorem mergeGrid_ne_nil (regular : List K) : mergeGrid regular ≠ [] := by
+  intro h
+  have : (0 : K) ∈ mergeGrid regular := by
+    rw [mem_mergeGrid]; right
+    simp only [grid, List.mem_map, List.mem_range]
+    exact ⟨0, by norm_num, by simp⟩
+  rw [h] at this; simp at this
+
+/-- **the cubic's lookup answers in [0,1]**, whatever the regular sampler returned (even nothing) -/
+theorem cubic_tOfPointFull_range (dist : K → K) (regular : List K) (hs : ∀ t ∈ regular, 0 ≤ t ∧ t ≤ 1) :
+    0 ≤ cubicTOfPointFull dist regular ∧ cubicTOfPointFull dist regular ≤ 1 := by
+  unfold cubicTOfPointFull
+  apply cubic_tOfPoint_range dist _ (mergeGrid_ne_nil regular)
+  intro t ht
+  rcases (mem_mergeGrid regular t).mp ht with h | h
+  · exact hs t h
+  · exact grid_range t h
+
+/-- the coarse search returns a sample at least as close as every sample it visited -/
+theorem bestSample_le (dist : K → K) : ∀ (ts : List K) (acc : Option (K × K)) (r : K × K),
+    bestSample dist ts acc = some r → (∀ t ∈ ts, r.2 ≤ dist t) ∧ (∀ a, acc = some a → r.2 ≤ a.2) := by
+  intro ts
+  induction ts with
+  | nil =>
+    intro acc r h
+    simp only [bestSample] at h
+    exact ⟨by simp, fun a ha => by rw [h] at ha; simp at ha; rw [ha]⟩
+  | cons t rest ih =>
+    intro acc r h
+    cases acc with
+    | none =>
+      simp only [bestSample] at h
+      obtain ⟨h1, h2⟩ := ih _ r h
+      refine ⟨?_, by simp⟩
+      intro u hu
+      rcases List.mem_cons.mp hu with rfl | hu
+      · exact h2 (u, dist u) rfl
+      · exact h1 u hu
+    | some b =>
+      obtain ⟨bt, bd⟩ := b
+      simp only [bestSample] at h
+      split_ifs at h with hlt
+      · obtain ⟨h1, h2⟩ := ih _ r h
+        have h3 := h2 (t, dist t) rfl
+        refine ⟨?_, ?_⟩
+        · intro u hu
+          rcases List.mem_cons.mp hu with rfl | hu
+          · exact h3
+          · exact h1 u hu
+        · intro a ha; simp at ha; rw [← ha]; exact le_trans h3 (le_of_lt hlt)
+      · obtain ⟨h1, h2⟩ := ih _ r h
+        have h3 := h2 (bt, bd) rfl
+        refine ⟨?_, ?_⟩
+        · intro u hu
+          rcases List.mem_cons.mp hu with rfl | hu
+          · exact le_trans h3 (le_of_not_gt hlt)
+          · exact h1 u hu
+        · intro a ha; simp at ha; rw [← ha]; exact h3
+
+/-- every parameter in [0, 1] has a grid point at most 1/64 below it: the halving loop (reach 0.02) always starts close enough -/
+theorem grid_dense (t : ℝ) (h0 : 0 ≤ t) (h1 : t ≤ 1) : ∃ g ∈ (grid : List ℝ), g ≤ t ∧ t - g < 1 / 64 := by
+  refine ⟨(⌊64 * t⌋₊ : ℝ) / 64, ?_, ?_, ?_⟩
+  · simp only [grid, List.mem_map, List.mem_range]
+    refine ⟨⌊64 * t⌋₊, ?_, rfl⟩
+    have : ⌊64 * t⌋₊ ≤ 64 := by
+      apply Nat.floor_le_of_le
+      push_cast; linarith
+    omega
+  · rw [div_le_iff₀ (by norm_num)]
+    have := Nat.floor_le (by positivity : 0 ≤ 64 * t)
+    linarith
+  · have := Nat.lt_floor_add_one (64 * t)
+    rw [sub_lt_iff_lt_add, ← sub_lt_iff_lt_add']
+    have h64 : (0:ℝ) < 64 := by norm_num
+    rw [lt_div_iff₀ h64]
+    linarith
+
 end cubic
 
 end C15
